@@ -217,6 +217,7 @@ type WEval struct {
 	allocEpoch map[*ssa.Alloc]int     // reader paths: named locals are printed as name#epoch
 	pathPhi    map[*ssa.Phi]ssa.Value // evaluation along one enumerated path: the incoming value chosen at each merge
 	argLay     map[ssa.Value]*Lay     // byte-slice parameters of an evaluated callee: the caller's layout of the argument
+	pathBlocks map[*ssa.BasicBlock]bool // evaluation along one enumerated path: the blocks on it (writes elsewhere did not happen)
 	splitPhi   *ssa.Phi               // set when a merged value had to be printed inside a term (see evalFuncResult)
 	splits     int
 }
@@ -585,13 +586,17 @@ func (w *WEval) fixedBufferStores(al *ssa.Alloc, n int) *Lay {
 					return unk("buffer written at a non-constant index")
 				}
 				live := true
-				for _, dc := range dominatingConds(st.Block()) {
-					cv, known := w.constBool(dc.cond)
-					if !known {
-						return unk("buffer element written under a condition the valuation leaves open")
-					}
-					if cv != dc.truth {
-						live = false
+				if w.pathBlocks != nil {
+					live = w.pathBlocks[st.Block()]
+				} else {
+					for _, dc := range dominatingConds(st.Block()) {
+						cv, known := w.constBool(dc.cond)
+						if !known {
+							return unk("buffer element written under a condition the valuation leaves open")
+						}
+						if cv != dc.truth {
+							live = false
+						}
 					}
 				}
 				if !live {
@@ -604,12 +609,84 @@ func (w *WEval) fixedBufferStores(al *ssa.Alloc, n int) *Lay {
 			}
 		}
 	}
-	for i := range items {
-		if items[i] == nil {
-			items[i] = &Lay{K: "const", S: "00"}
+	// binary.PutUintN(buf[k:], v): N/8 bytes from position k
+	for _, r := range *al.Referrers() {
+		sl0, ok := r.(*ssa.Slice)
+		if !ok || sl0.Referrers() == nil {
+			continue
+		}
+		views := []*ssa.Slice{sl0}
+		base := map[*ssa.Slice]int64{sl0: 0}
+		if sl0.Low != nil {
+			if k, ok := constInt(sl0.Low); ok {
+				base[sl0] = k.Int64()
+			}
+		}
+		for _, rr := range *sl0.Referrers() {
+			if s2, ok := rr.(*ssa.Slice); ok && s2.Referrers() != nil {
+				off := base[sl0]
+				if s2.Low != nil {
+					k, ok := constInt(s2.Low)
+					if !ok {
+						return unk("buffer re-sliced at a non-constant position")
+					}
+					off += k.Int64()
+				}
+				views = append(views, s2)
+				base[s2] = off
+			}
+		}
+		for _, v := range views {
+			for _, u := range *v.Referrers() {
+				call, ok := u.(*ssa.Call)
+				if !ok || call.Call.StaticCallee() == nil {
+					continue
+				}
+				sc := call.Call.StaticCallee()
+				if !strings.HasPrefix(sc.Name(), "PutUint") || !strings.Contains(sc.String(), "encoding/binary") || len(call.Call.Args) != 3 || call.Call.Args[1] != ssa.Value(v) {
+					continue
+				}
+				if w.pathBlocks != nil && !w.pathBlocks[call.Block()] {
+					continue
+				}
+				if w.pathBlocks == nil && len(dominatingConds(call.Block())) > 0 {
+					for _, dc := range dominatingConds(call.Block()) {
+						if cv, known := w.constBool(dc.cond); !known || cv != dc.truth {
+							return unk("buffer filled under a condition the valuation leaves open")
+						}
+					}
+				}
+				width := 0
+				fmt.Sscanf(strings.TrimPrefix(sc.Name(), "PutUint"), "%d", &width)
+				k := "le"
+				if strings.Contains(sc.String(), "bigEndian") {
+					k = "be"
+				}
+				off := int(base[v])
+				if off < 0 || off+width/8 > n {
+					return unk("PutUint%d at offset %d of a %d byte buffer", width, off, n)
+				}
+				for i := off; i < off+width/8; i++ {
+					if items[i] != nil {
+						return unk("buffer bytes written twice")
+					}
+					items[i] = &Lay{K: "skip"}
+				}
+				items[off] = &Lay{K: k, W: width / 8, S: w.term(call.Call.Args[2])}
+			}
 		}
 	}
-	return seqOf(items...)
+	var out []*Lay
+	for i := range items {
+		switch {
+		case items[i] == nil:
+			out = append(out, &Lay{K: "const", S: "00"})
+		case items[i].K == "skip":
+		default:
+			out = append(out, items[i])
+		}
+	}
+	return seqOf(out...)
 }
 
 // evalFilledMake: buf := make([]byte, L) with a run-time L, then filled in the same basic block by
@@ -888,6 +965,13 @@ func (w *WEval) evalSlice(x *ssa.Slice) *Lay {
 			for _, r := range *x.Referrers() {
 				if _, ok := r.(*ssa.IndexAddr); ok {
 					written = true
+				}
+				if s2, ok := r.(*ssa.Slice); ok && s2.Referrers() != nil {
+					for _, u := range *s2.Referrers() {
+						if call, ok := u.(*ssa.Call); ok && call.Call.StaticCallee() != nil && strings.HasPrefix(call.Call.StaticCallee().Name(), "PutUint") {
+							written = true
+						}
+					}
 				}
 			}
 		}
